@@ -8,8 +8,8 @@ from fractions import Fraction
 
 VERIF = os.path.dirname(os.path.dirname(os.path.abspath(__file__)))
 SPEC = os.path.join(VERIF, 'spec')
-BUILD = os.path.join(VERIF, 'build')
-EVID = os.path.join(VERIF, 'evidence')
+BUILD = os.environ.get('VERIF_BUILD') or os.path.join(VERIF, 'build')          # scratch override: runs against seeded changes
+EVID = os.environ.get('VERIF_EVID') or os.path.join(VERIF, 'evidence')
 REPO = os.environ.get('VERIF_REPO', '/repo')
 GUARD = 'NUMDIFFTOOLS_VERIF'
 JAR = '/opt/veriftools/tla/tla2tools.jar:/opt/veriftools/tla/CommunityModules-deps.jar'
